@@ -417,6 +417,7 @@ func firedStr(f []fired) string {
 }
 
 func runCron(c *Ctx) {
+	runCronScenarios(c)
 	c.ForCases(func(i int, rng *rand.Rand) { cronCase(c, rng) })
 }
 
